@@ -138,7 +138,7 @@ pub fn definition(d: &Definition) -> Value {
 pub fn file(f: &SliceFile) -> Value {
     let (module, mattrs) = match &f.module {
         Some(m) => (json!(m.borrow().nested_module_identifier()), attrs(m.borrow().attributes())),
-        None => (Value::Null, json!([])),
+        None => (json!(""), json!([])),
     };
     json!({"module": module, "fattrs": attrs(f.attributes()), "mattrs": mattrs, "defs": f.contents.iter().map(definition).collect::<Vec<_>>()})
 }
